@@ -450,7 +450,10 @@ fn gen_cfg(r: &mut Rng, allow_default: bool, malformed: bool) -> Vec<String> {
     for _ in 0..n {
         let a: Vec<String> = match r.below(12) {
             0 => vec!["for".into(), format!("L:{}{}", gen_num(r), r.pick(&["s", "ms"]))],
-            1 | 2 => vec![format!("L:{}{}", gen_num(r), r.pick(&["s", "ms"]))],
+            1 | 2 => vec![if r.chance(1, 12) && !compilable() {
+                // a byte literal is a numeric literal to the macro (`NumericLit::Byte`): its value is the byte
+                format!("L:{}{}", r.pick(&["b'a'", "b'2'", "b'\\x05'", "b'Z'"]), r.pick(&["s", "ms"]))
+            } else { format!("L:{}{}", gen_num(r), r.pick(&["s", "ms"])) }],
             3 => vec!["after".into(), format!("L:{}{}", gen_num(r), r.pick(&["s", "ms"]))],
             4 => vec!["reverse".into()],
             5 => vec!["infinite".into()],
@@ -461,7 +464,13 @@ fn gen_cfg(r: &mut Rng, allow_default: bool, malformed: bool) -> Vec<String> {
         args.push(a);
     }
     if malformed {
-        let bad: Vec<String> = match r.below(14) {
+        let bad: Vec<String> = match r.below(20) {
+            14 => vec!["from".into(), "B:0=1.0".into()],                 // unnamed (tuple-index) member in the keyframe body
+            15 => vec![format!("L:{}", r.below(100)), "%".into(), format!("B:x=1;{}=2", r.below(3))],
+            16 => vec![format!("L:'a'{}", r.pick(&["s", "ms", "x", ""]))], // char literal where a number is expected
+            17 => vec![format!("L:\"7\"{}", r.pick(&["s", "ms", "x"]))], // string literal with a unit suffix
+            18 => vec!["L:b'3'x".into()],                                // byte literal as a repeat count (not an integer literal)
+            19 => vec![r.pick(&["for", "after"]).to_string(), r.pick(&["L:true", "L:'s'", "L:\"2s\""]).to_string()],
             0 => vec![format!("L:{}m", gen_num(r))],                    // unknown suffix
             1 => vec![format!("L:{}", r.below(100)), gen_braces(r)],     // missing %
             2 => vec![format!("L:{}.5x", r.below(9))],                   // non-integer repeat
